@@ -10,9 +10,12 @@
 #include <cstdlib>
 #include <cmath>
 #include <type_traits>
+#include <csignal>
+#include <sys/time.h>
 #include <gmp.h>
 #include "gmp++/gmp++.h"
 #include "givinteger.h"
+#include "giverror.h"
 
 using namespace Givaro;
 
@@ -43,7 +46,23 @@ static int sgn(long long x) { return (x > 0) - (x < 0); }
 #include "c01_part3.inc"
 #include "c01_part4.inc"
 
+// ---- per-case CPU-time watchdog: a call that does not return within the budget (CPU time of this process, independent of the
+// machine load) ends the process after DOES-NOT-RETURN has been written for that case (only async-signal-safe calls in the handler:
+// the interrupted code may be inside malloc); the check restarts the harness on the remaining cases and re-runs the case alone
+// with a larger budget before it calls it a hang.
+#include <unistd.h>
+static void wd_fire(int) { static const char m[] = "DOES-NOT-RETURN\n"; ssize_t r = write(1, m, sizeof m - 1); (void)r; _exit(0); }
+static void wd_arm(double seconds) {
+    struct itimerval it; it.it_interval.tv_sec = 0; it.it_interval.tv_usec = 0;
+    it.it_value.tv_sec = (long)seconds; it.it_value.tv_usec = (long)((seconds - (long)seconds) * 1e6);
+    setitimer(ITIMER_VIRTUAL, &it, NULL);
+}
+
 int main() {
+    double budget = 10.0;
+    if (const char* b = getenv("C01_CPU_BUDGET")) budget = atof(b) > 0 ? atof(b) : budget;
+    struct sigaction sa; memset(&sa, 0, sizeof sa); sa.sa_handler = wd_fire; sigemptyset(&sa.sa_mask);
+    sigaction(SIGVTALRM, &sa, NULL);
     std::string line;
     while (std::getline(std::cin, line)) {
         std::istringstream is(line); tok.clear(); std::string t;
@@ -52,9 +71,14 @@ int main() {
         o.str(""); o.clear();
         std::string v = tok[0];
         if (v.size() > 5 && v.compare(v.size() - 5, 5, "@unit") == 0) v.erase(v.size() - 5);   // same call form, operands outside the model's reach
-        bool ok = part1(v) || part2(v) || part3(v) || part4(v);
-        if (!ok) o << "UNKNOWN-VARIANT";
-        std::cout << o.str() << "\n";
+        bool ok = false, thrown = false;
+        std::cout.flush();          // everything before this case is out before the watchdog can end the process
+        wd_arm(budget);
+        try { ok = part1(v) || part2(v) || part3(v) || part4(v); }
+        catch (GivError&) { thrown = true; }        // an operation that rejects its operands (e.g. logp with a base < 2 after fix-6)
+        wd_arm(0);
+        if (thrown) std::cout << "THROWS\n";
+        else { if (!ok) o << "UNKNOWN-VARIANT"; std::cout << o.str() << "\n"; }
     }
     return 0;
 }
